@@ -295,6 +295,8 @@ pub fn run(prop: PathProp, tier: Tier, seed: u64) -> i32 {
     if prop == PathProp::C05 {
         c05_histories(&ctx, tier, seed);
         ctx.require("history_paths_after_step_change");
+        c05_deep(&ctx, tier, seed);
+        ctx.require("deep_tree_paths");
     }
     if prop == PathProp::C01 {
         c01_histories(&ctx, tier, seed);
@@ -896,6 +898,50 @@ fn c02_special(ctx: &Ctx, tier: Tier, seed: u64) {
             }
             i += shards;
         }
+        ctx.merge(b);
+    });
+}
+
+/// C05 on very deep trees: every sample is the goal, every node the child of the previous one
+/// (quick: ~5 000 nodes for RRT and RRT*; thorough: also one RRT tree of 70 000 nodes - more
+/// than a 16-bit index can address). Every step of the returned path must still be one step.
+fn c05_deep(ctx: &Ctx, tier: Tier, seed: u64) {
+    use super::hist::{run_history, History, Op};
+    use crate::spec::{Spec, Wrap, CK};
+    use crate::world::{GoalMode, GoalSpec, PParams, Problem, World};
+    let mut jobs: Vec<(PKind, u64)> = vec![(PKind::Rrt, 5_000), (PKind::Star, 4_700)];
+    if tier == Tier::Thorough {
+        jobs.push((PKind::Rrt, 70_000));
+        jobs.push((PKind::Star, 9_000));
+    }
+    par_shards(jobs.len(), crate::util::n_threads(), |i| {
+        let (kind, depth) = jobs[i];
+        let mut r = Sm::derive(seed, &[555, i as u64]);
+        let mut b = Batch::default();
+        let ext = *r.pick(&[1.0, 100.0]);
+        let spec = Spec::plain(Wrap::R, CK::R { n: 1, bounds: Some(vec![(0.0, ext)]) }, None);
+        let step = ext / depth as f64;
+        let goal = GoalSpec { centre: vec![ext], radius: step * 0.75, mode: GoalMode::Centre, fail_at: None, window: None };
+        let problem = Problem { spec: spec.clone(), world: World::default(), start: vec![0.0], extra_starts: vec![], goal, infeasible: None, tags: vec!["deep-tree".into()] };
+        let params = PParams { kind, max_distance: step, goal_bias: 1.0, search_radius: step * 0.5, connection_radius: step, seed: Some(r.next_u64()) };
+        let h = History { problems: vec![problem], params: params.clone(), prm_samples: 0, ops: vec![Op::Setup(0), Op::Solve(depth + 50)], uniform_fail_at: None, starts_override: None, script: None, prm_build_override: None };
+        b.evaluations += 1;
+        with_kit!(spec, K, kit => {
+            if let Ok((_, recs)) = run_history::<K>(&kit, &h, false, 500_000_000) {
+                if let (Some(Res::Path(p)), Ok(sp)) = (recs.last().map(|c| &c.res), kit.build()) {
+                    b.count("deep_tree_paths", 1);
+                    b.max("deepest_path_states", p.len() as f64);
+                    b.distinct.insert(hash_path(p));
+                    let (f, worst) = path_steps(&kit, &sp, &params, p);
+                    b.max("worst_step_minus_limit(deep)", worst);
+                    for (sig, det) in f {
+                        let mut v = h.to_json();
+                        v["property"] = json!("C05");
+                        ctx.violate(&format!("{sig}:{}:deep-tree", kind.name()), format!("{det} [path of {} states; tree depth {depth}]", p.len()), v);
+                    }
+                }
+            }
+        });
         ctx.merge(b);
     });
 }
